@@ -2,6 +2,7 @@ import MoqModel.Render
 import MoqModel.Sexp
 import MoqModel.WF
 import MoqModel.GoFile
+import MoqModel.Seq
 /-
   Driver: reads one `(case …)` per line on stdin, prints the model's projections.
   Output: lines `key<TAB>value` (value escaped), terminated by a line `end<TAB><id>`.
@@ -54,6 +55,102 @@ def runCase (id : Str) (inp : Input) : IO Unit := do
   kv "dst" (dstPath inp)
   kv "end" id
 
+/- ------------------------- runtime scripts (P-rt) ------------------------- -/
+open Moq.Seq in
+def toUOp (x : Sexp) : Option UOp :=
+  match x with
+  | .list (.atom t :: rest) =>
+    if t = s%"call" then
+      match rest with
+      | m :: args => do pure (.call (← Sexp.getStr m) (← args.mapM Sexp.getNat))
+      | _ => none
+    else if t = s%"calls" then
+      match rest with
+      | [m] => (Sexp.getStr m).map .calls
+      | _ => none
+    else if t = s%"reset" then
+      match rest with
+      | [m] => (Sexp.getStr m).map .resetOne
+      | _ => none
+    else if t = s%"resetall" then some .resetAll
+    else none
+  | _ => none
+
+open Moq.Seq in
+def toBeh (x : Sexp) : Option (Str × Beh) :=
+  match x with
+  | .list [m, ops, pn, rs] => do
+    let ops ← (← Sexp.tagged s%"ops" ops).mapM toUOp
+    let pn ← Sexp.tagged s%"panic" pn
+    let p ← (match pn with
+             | [] => some none
+             | [v] => (Sexp.getNat v).map some
+             | _ => none)
+    let rs ← (← Sexp.tagged s%"results" rs).mapM Sexp.getNat
+    pure ((← Sexp.getStr m), { ops := ops, panics := p, results := rs })
+  | _ => none
+
+def natList (l : List Nat) : Str := Str.join s%"," (l.map Str.ofNat)
+
+open Moq.Seq in
+def evStr : Ev → Option Str
+  | .invoked m args sp =>
+    some (s%"inv " ++ m ++ s%" " ++ natList args ++ (if sp then s%" spread" else s%" nospread"))
+  | .snapshot m _ cs =>
+    some (s%"snap " ++ m ++ s%" " ++ Str.ofNat cs.length ++ s%"[" ++
+      Str.join s%"|" (cs.map fun r => Str.join s%"," (r.map fun (f, v) => f ++ s%"=" ++ Str.ofNat v)) ++ s%"]")
+  | _ => none
+
+open Moq.Seq in
+def outStr : Outcome → Str
+  | .ret vs => s%"ret " ++ natList vs
+  | .panicUser v => s%"panic-user " ++ Str.ofNat v
+  | .panicNil msg => s%"panic-nil " ++ msg
+  | .deadlock => s%"deadlock"
+  | .fatal w => s%"fatal " ++ w
+  | .outOfFuel => s%"out-of-fuel"
+
+open Moq.Seq in
+def runRt (id : Str) (inp : Input) (mockName : Str) (maxDepth : Nat) (funcs : List (Str × Beh))
+    (script : List UOp) : IO Unit := do
+  match genData Ord.id fuel inp with
+  | .error e => kv "err" e.message
+  | .ok d =>
+    match genFile d with
+    | none => kv "err" s%"<template execution failed>"
+    | some f =>
+      match f.mocks.find? (·.mockName = mockName) with
+      | none => kv "err" s%"<no such mock>"
+      | some mk =>
+        let c : Cfg := { funcs := fun m => (funcs.find? (·.1 = m)).map (·.2), grow := fun n => 2 * n + 1,
+                         file := mk, maxDepth := maxDepth }
+        let mut s := St.init
+        let mut lines : List Str := []
+        let mut snaps : List (Str × Hdr × List Rec) := []
+        for op in script do
+          let (s', evs, o) := runOp c 0 10000 op s
+          s := s'
+          lines := lines ++ evs.filterMap evStr ++ [outStr o]
+          snaps := snaps ++ evs.filterMap fun e => match e with
+            | .snapshot m h cs => some (m, h, cs) | _ => none
+        let stable := snaps.all fun (m, h, cs) => s.contents m h = cs
+        kv "rt" (Str.join s%";" lines)
+        kv "stable" (bstr stable)
+  kv "end" id
+
+def handleRt (x : Sexp) : Option (IO Unit) :=
+  match x with
+  | .list [.atom t, id, mk, md, fs, sc, cs] =>
+    if t ≠ s%"rt" then none else do
+    let id ← Sexp.getStr id
+    let [mkn] ← Sexp.tagged s%"mock" mk | none
+    let [mdn] ← Sexp.tagged s%"maxdepth" md | none
+    let funcs ← (← Sexp.tagged s%"funcs" fs).mapM toBeh
+    let script ← (← Sexp.tagged s%"script" sc).mapM toUOp
+    let (_, inp) ← Sexp.toCase cs
+    pure (runRt id inp (← Sexp.getStr mkn) (← Sexp.getNat mdn) funcs script)
+  | _ => none
+
 partial def loop (h : IO.FS.Stream) : IO Unit := do
   let line ← h.getLine
   if line.isEmpty then return ()
@@ -62,6 +159,9 @@ partial def loop (h : IO.FS.Stream) : IO Unit := do
   match Sexp.parse l with
   | none => IO.println "parse-error\tsexp"; IO.println "end\t?"
   | some (x, _) =>
+    match handleRt x with
+    | some act => act
+    | none =>
     match Sexp.toCase x with
     | none => IO.println "parse-error\tcase"; IO.println "end\t?"
     | some (id, inp) => runCase id inp
